@@ -220,6 +220,90 @@ func recordScenFlow(fr *eng.FlowRecorder, s *eng.Scen) (eng.FlowTrace, eng.Obser
 	return eng.FlowTrace{Label: "generated || " + strings.ReplaceAll(obs.Text, "\n", " ; ") + fmt.Sprint(" || ", s.Req), Lines: lines}, obs
 }
 
+// recordScenAPI compiles a generated scenario together with body access and small body limits and
+// drives a random sequence of Transaction calls (repeated, out of order, body writes that reach the
+// limits) with the flow recorder attached.
+func recordScenAPI(fr *eng.FlowRecorder, s *eng.Scen, rng *rand.Rand) (tr eng.FlowTrace, ok bool) {
+	eng.NormalizeScen(s)
+	la := []string{"ProcessPartial", "Reject"}
+	extra := fmt.Sprintf("SecRequestBodyAccess On\nSecResponseBodyAccess On\nSecResponseBodyMimeType text/plain\nSecRequestBodyLimit %d\nSecRequestBodyLimitAction %s\nSecResponseBodyLimit %d\nSecResponseBodyLimitAction %s\n",
+		2+rng.Intn(4), la[rng.Intn(2)], 2+rng.Intn(4), la[rng.Intn(2)])
+	text := extra + eng.Render(s)
+	w, err, p := eng.Compile(text)
+	if err != nil || p != "" {
+		return tr, false
+	}
+	defer func() {
+		if c, ok := w.(interface{ Close() error }); ok {
+			c.Close()
+		}
+	}()
+	var script []string
+	func() {
+		defer func() {
+			if r := recover(); r != nil {
+				tr.Label = "api panic: " + fmt.Sprint(r)
+			}
+		}()
+		tx := w.NewTransaction()
+		defer tx.Close()
+		fr.Attach(tx)
+		tx.ProcessConnection("10.0.0.1", 1234, "10.0.0.2", 80)
+		tx.ProcessURI("/", "POST", "HTTP/1.1")
+		eng.Feed(tx, s.Req)
+		tx.AddRequestHeader("Content-Type", "application/x-www-form-urlencoded")
+		tx.AddResponseHeader("Content-Type", "text/plain")
+		canonical := []string{"PRH", "WREQ", "PRB", "PRSH", "WRESP", "PRSB", "PL"}
+		names := []string{"PRH", "PRB", "PRSH", "PRSB", "WREQ", "WREQ", "WRESP", "WRESP"}
+		n := 4 + rng.Intn(9)
+		logged := false
+		for j := 0; j < n && !logged; j++ {
+			name := names[rng.Intn(len(names))]
+			if rng.Intn(2) == 0 {
+				name = canonical[j%len(canonical)]
+			}
+			k := 1 + rng.Intn(3)
+			switch name {
+			case "PRH":
+				tx.ProcessRequestHeaders()
+			case "PRB":
+				_, _ = tx.ProcessRequestBody()
+			case "PRSH":
+				tx.ProcessResponseHeaders(200, "HTTP/1.1")
+			case "PRSB":
+				_, _ = tx.ProcessResponseBody()
+			case "WREQ":
+				if rng.Intn(2) == 0 {
+					_, _, _ = tx.WriteRequestBody([]byte("a=bcdef"[:k]))
+				} else {
+					_, _, _ = tx.ReadRequestBodyFrom(strings.NewReader("a=bcdef"[:k]))
+				}
+				name += fmt.Sprint(k)
+			case "WRESP":
+				if rng.Intn(2) == 0 {
+					_, _, _ = tx.WriteResponseBody([]byte("xyzuvw"[:k]))
+				} else {
+					_, _, _ = tx.ReadResponseBodyFrom(strings.NewReader("xyzuvw"[:k]))
+				}
+				name += fmt.Sprint(k)
+			case "PL":
+				tx.ProcessLogging()
+				logged = true
+			}
+			script = append(script, name)
+		}
+		if !logged {
+			tx.ProcessLogging()
+		}
+		tr.Lines = fr.Detach(tx)
+	}()
+	if strings.HasPrefix(tr.Label, "api panic") {
+		return tr, true
+	}
+	tr.Label = "api || " + strings.ReplaceAll(text, "\n", " ; ") + fmt.Sprint(" || ", s.Req) + " || calls " + strings.Join(script, " ")
+	return tr, true
+}
+
 // FlowTraceStage records and validates. which selects the sources: "profiles", "crs", "generated".
 func FlowTraceStage(run *vf.Run, which ...string) {
 	run.Rule += ". Code -> spec: recorded executions (" + strings.Join(which, ", ") + ": the repository's own test profiles under the canonical and six other call orders and under DetectionOnly, the bundled Core Rule Set over attack and benign traffic at several paranoia levels, generated rule sets) are validated event by event against Flow_Trace.tla: the branch of every rule-loop iteration from the residual state, the shape of every evaluation (non-disruptive actions once per matched value in order, flow / disruptive actions once per completed chain, one datum per satisfied value), the effect of skip / skipAfter / allow / deny / ctl on the state read back from the transaction, the phase protocol"
@@ -318,6 +402,25 @@ func FlowTraceStage(run *vf.Run, which ...string) {
 			stats.add("generated", tr)
 		}
 		run.Logf("flow traces: %d generated transactions recorded", stats.Sources["generated"])
+	}
+	if want["api"] {
+		rng := rand.New(rand.NewSource(run.Seed*15485863 + 5))
+		n := vf.Pick(run, 600, 6000)
+		for k := 0; k < n; k++ {
+			s := eng.GenScen(rng, eng.GenOpts{MaxRules: 4, MaxEntries: 3, Actions: true, Chains: k%3 == 0, Flow: true, Engines: []string{"On", "On", "DetectionOnly"}})
+			tr, ok := recordScenAPI(fr, s, rng)
+			fr.ForgetRules()
+			if !ok {
+				continue
+			}
+			if strings.HasPrefix(tr.Label, "api panic") {
+				run.Violate(vf.Violation{Signature: "flow:panic|api", What: tr.Label, Replay: map[string]any{"scenario": s}})
+				continue
+			}
+			traces = append(traces, tr)
+			stats.add("api", tr)
+		}
+		run.Logf("flow traces: %d generated transactions under random call sequences recorded", stats.Sources["api"])
 	}
 	run.Extra["flow_trace"] = stats
 	run.Logf("flow traces: %d events, rule-loop branches %v", stats.Events, stats.Branches)
